@@ -12,7 +12,7 @@ import warnings
 
 import numpy as np
 
-from harness import core, tlc, fcsgen
+from harness import core, tlc, fcsgen, loadform
 from harness.core import run_driver
 
 import FlowCal.io  # noqa
@@ -31,7 +31,7 @@ def world():
     fcsgen.write_sample(path, ev, ['c1', 'c2', 'c3'], RES, bits=16, pne=['7,0.1', '4,1', '2,0.5'])
     with warnings.catch_warnings():
         warnings.simplefilter('ignore')
-        raw = FlowCal.io.FCSData(path)
+        raw = FlowCal.io.FCSData(loadform.arg(path, 1))
         rfi = FlowCal.transform.to_rfi(raw)
         mef = FlowCal.transform.to_mef(raw, None, [lambda x: 2.5 * x] * 3)
     fpath = os.path.join(d, 'f.fcs')
@@ -218,6 +218,54 @@ def check_edges(x, col, e, p, ovr, src=None, state=None):
     return None
 
 
+def wide_file(chk):
+    """Twelve channels, each with a declared range (and most negative event) of its own: the default bins of every
+    channel are those of the same column recorded in a file of its own - bins are a function of the channel's own
+    declared range and own events, whatever else the file holds (spec: HistBins takes one channel's parameters)."""
+    d = tlc.scratch('c19w_')
+    res = [2 ** k for k in range(8, 19)] + [1000]
+    names = ['CH%02d' % (i + 1) for i in range(12)]
+    for kind in ('int', 'float-neg'):
+        if kind == 'int':
+            ev = [[0] * 12, [r - 1 for r in res], [r // 3 for r in res], [1] * 12, [r // 2 + 1 for r in res]]
+            kw = dict(bits=32)
+        else:
+            # negative events, a different minimum in every channel (the logicle linear width follows the channel's own)
+            ev = [[-(3.0 + 17.5 * j) for j in range(12)], [float(r - 1) for r in res], [r / 3.0 for r in res],
+                  [-0.5 * (12 - j) for j in range(12)], [r / 2.0 + 1 for r in res]]
+            kw = dict(datatype='F')
+        wp = os.path.join(d, 'wide_%s.fcs' % kind)
+        fcsgen.write_sample(wp, ev, names, res, pne=['0,0'] * 12, **kw)
+        with warnings.catch_warnings():
+            warnings.simplefilter('ignore')
+            wide = FlowCal.io.FCSData(loadform.arg(wp))
+            for j in range(12):
+                np_ = os.path.join(d, 'narrow.fcs')
+                fcsgen.write_sample(np_, [[e[j], 1] for e in ev], [names[j], 'other'], [res[j], 64], pne=['0,0'] * 2, **kw)
+                narrow = FlowCal.io.FCSData(np_)
+                lab = None
+                if [float(v) for v in wide.range(j)] != [0.0, res[j] - 1.0] or wide.resolution(j) != res[j] or \
+                        [float(v) for v in wide.range(names[j])] != [0.0, res[j] - 1.0]:
+                    lab = 'declared-range/%r' % (list(wide.range(j)),)
+                for scale in ('linear', 'log', 'logicle'):
+                    if lab:
+                        break
+                    want = np.asarray(narrow.hist_bins(0, scale=scale))
+                    for how, got in (('position', wide.hist_bins(j, scale=scale)), ('name', wide.hist_bins(names[j], scale=scale)),
+                                     ('all', wide.hist_bins(scale=scale)[j]),
+                                     ('list', wide.hist_bins([names[(j + 1) % 12], j], scale=scale)[1])):
+                        got = np.asarray(got)
+                        if got.shape != want.shape or got.tobytes() != want.tobytes():
+                            lab = '%s/by-%s/%d-edges-want-%d' % (scale, how, len(got), len(want))
+                            break
+                chk.case(('c19-wide', kind, j), nontrivial=True)
+                chk.traces += 1
+                if lab:
+                    chk.violation('C19/wide-file/%s/channel-bins-differ-from-the-channel-alone/%s' % (kind, lab.split('/')[0]),
+                                  {'file': 'twelve channels, $PnR = %r' % res, 'kind': kind, 'channel': j + 1}, 'bins of the same column recorded alone', lab)
+    chk.extra['wide_file'] = {'channels': 12, 'ranges': res}
+
+
 def main(chk, replay=None):
     chk.rule = ('GEN: 3 sample states x 9 channel forms x nbins {default,1,2,7,16,lists} x scale {linear,log,logicle,lists,'
                 'unknown} x logicle overrides; non-trivial = accepted calls with a non-default argument or refused ones')
@@ -227,6 +275,7 @@ def main(chk, replay=None):
         print(json.dumps(replay, indent=1)[:3000])
         return
     W = world()
+    wide_file(chk)
     cfg = ('SPECIFICATION Spec\nINVARIANT EdgesIncreasing\nINVARIANT EdgesCover\nINVARIANT CentredSmall\n'
            'INVARIANT UnknownScaleRefused\nINVARIANT SourcesTotal\n')
     res = tlc.require_ok(tlc.run_tlc('Gen_C19', cfg, dump=True), 'Gen_C19')
